@@ -871,6 +871,9 @@ def _resolve_action_conflicts(
                         and winning_event.action_uid
                         and isinstance(competing_event, ActionEvent)
                         and competing_event.action_uid
+                        # Both heads can refer to the very same (already shared) action,
+                        # e.g. when they send the same event of it. Nothing to replace then.
+                        and competing_event.action_uid != winning_event.action_uid
                     ):
                         # All heads that are on the exact same action as the winning head
                         # need to replace their action references with the winning heads action reference
